@@ -20,6 +20,8 @@
 #include "celeritas/field/FieldPropagator.hh"
 #include "celeritas/field/MakeMagFieldPropagator.hh"
 #include "celeritas/field/RZMapField.hh"
+
+#include "field_map_check.hh"
 #include "celeritas/field/RungeKuttaStepper.hh"
 #include "celeritas/field/UniformField.hh"
 #include "celeritas/field/UniformZField.hh"
@@ -867,12 +869,16 @@ int main(int argc, char** argv)
         return rep.finish();
     }
 
+    // values of the R-Z map field itself (field_map_check.hh); cheap, once per process
+    fieldv::check_field_maps(rep, args, ctx->rz_cms ? &ctx->rz_cms_input : nullptr);
+
     int nshards = std::max(1, std::atoi(args.get("nshards", "1").c_str()));
     std::uint64_t budget = args.budget(20000, 5000000);
     if (args.thorough())
         budget = std::max<std::uint64_t>(1, budget / std::uint64_t(nshards));
     std::uint64_t index = 0;
-    while (rep.evaluations() < budget)
+    std::uint64_t const base = rep.evaluations();  // the map checks do not count towards the budget
+    while (rep.evaluations() - base < budget)
     {
         run_case(E, index++);
     }
